@@ -10,6 +10,18 @@ COMMON_NOTE = ("Trusted base: pyvc engine (AST transform T1-T3 of the real sourc
                "lift to C), A3 (integer powers), A4 (path forking via z3), A5 (numpy shim contracts, listed per run in evidence.trusted_base). ")
 
 CLAIMED = {
+    "C04": dict(
+        category="proof",
+        text=("Dispatch-layer clauses over the COMPLETE finite configuration space (QCD order 1-4 x QED order 0-2 x 8 methods x 3 scale-variation modes x threshold flag x "
+              "(polarised, time-like) x every sector label x both N3LO parametrisations x running flag: ~55 000 kernel configurations; matching: order 1-3 x 3 inversion modes x sv modes x "
+              "flags x MSbar x 13 labels), real quad_ker_ad/qcd/qed/ome, ekore dispatchers, kernel dispatchers, scale-variation functions and build_ome executed with opaque non-zero leaves: "
+              "(a) every configuration returns or raises NotImplementedError/ValueError with a message -- no unrelated exception; (b) definite assignment: a dispatcher that returns has filled "
+              "every pure-QCD slot below the requested order (nf 3-6, all sectors, three variants; one defect repaired by a fix commit: time-like N3LO was silently zero); "
+              "(c) the documented refusals happen."),
+        note=COMMON_NOTE + "Finiteness of floats, the runner above the kernels, and Couplings / MSbar numerics are not covered. Couplings and scales are concrete rationals in this check (the outcome class does not depend on them).",
+        technique="contract-based deductive verification: exhaustive enumeration of the finite configuration space with symbolic execution of the real dispatch code over opaque callee contracts",
+        design_ref="DESIGN.md section 2, C04",
+    ),
     "C14": dict(
         category="proof",
         text=("Kernel clause at a_em = 0 for ANY number of steps (loop invariants over a symbolic iteration count), QCD orders 1-4 x QED orders 1-2, generic beta coefficients: every step of "
